@@ -115,12 +115,12 @@ Fixpoint msgs_ok (k : Z) (l : list Z) : bool :=
   end.
 
 Definition is_nil_z (l : list Z) : bool := match l with [] => true | _ => false end.
-Definition spec_handshake (ch : N) (t : ttype) (r : remote) (obs : list Z) : bool :=
+Definition spec_hs_with (e : option key) (obs : list Z) : bool :=
   match obs with
   | res :: bound :: ready :: nev :: rest =>
       let evs := firstn (Z.to_nat nev) rest in
       let msgs := skipn (Z.to_nat nev) rest in
-      match entitled ch t r with
+      match e with
       | Some k =>
           (* whatever is bound / reported / consumed is for the proven key *)
           (Z.eqb bound (-1) || Z.eqb bound (zn k)) && msgs_ok (zn k) msgs &&
@@ -131,6 +131,8 @@ Definition spec_handshake (ch : N) (t : ttype) (r : remote) (obs : list Z) : boo
       end
   | _ => false
   end.
+Definition spec_handshake (ch : N) (t : ttype) (r : remote) (obs : list Z) : bool :=
+  spec_hs_with (entitled ch t r) obs.
 
 (* invitations: judged operation by operation on the implementation's answers;
    seen = invitations created or accepted so far (according to those answers) *)
